@@ -1,6 +1,7 @@
 package main
 
 import (
+	"os"
 	"fmt"
 	"go/types"
 	"sort"
@@ -284,6 +285,52 @@ func (fr *Frame) callWith(cc *ssa.CallCommon, site ssa.Instruction, st *State, g
 				}
 			}
 		}
+		// one of several statically known dynamic types, depending on the path taken: dispatch each to its concrete method
+		if len(recv.DynAlts) > 0 && os.Getenv("GOVC_NODYNALTS") == "" {
+			var ms []*ssa.Function
+			for _, a := range recv.DynAlts {
+				var m *ssa.Function
+				if sel := c.prog.SSA.MethodSets.MethodSet(a.Dyn).Lookup(cc.Method.Pkg(), cc.Method.Name()); sel != nil {
+					m = c.prog.SSA.MethodValue(sel)
+				}
+				ms = append(ms, m)
+			}
+			ok := true
+			for _, m := range ms {
+				if m == nil {
+					ok = false
+				}
+			}
+			if ok {
+				var guards, ngs []*Term
+				var sts []*State
+				var vals []Val
+				allReturn := true
+				for i, a := range recv.DynAlts {
+					sk := st.clone()
+					gk := c.define(fmt.Sprintf("g.dyn%d", i), tAnd(g, a.G))
+					v, ng := fr.callFunc(ms[i], append([]Val{a.V}, args...), sk, gk, site, resType)
+					guards = append(guards, gk)
+					sts = append(sts, sk)
+					vals = append(vals, v)
+					if ng != nil {
+						ngs = append(ngs, ng)
+						allReturn = false
+					} else {
+						ngs = append(ngs, gk)
+					}
+				}
+				merged := c.joinStates(guards, sts)
+				st.heap = merged.heap
+				if allReturn {
+					// every alternative returns normally: the path condition is unchanged (the alternatives' guards are the
+					// guards of the edges into the block that defines the receiver, which dominates this call, so under g
+					// one of them holds)
+					return c.mergeAltVals(guards, vals, resType), nil
+				}
+				return c.mergeAltVals(guards, vals, resType), c.define("g.dynret", tOr(ngs...))
+			}
+		}
 		// interface-level contract
 		if ct := c.ifaceContract(cc); ct != nil {
 			return fr.applyContract(ct, nil, cc.Method.Name(), append([]Val{recv}, args...), cc.Signature(), cc.Value.Type(), st, g, site, resType)
@@ -314,6 +361,7 @@ func (fr *Frame) callWith(cc *ssa.CallCommon, site ssa.Instruction, st *State, g
 		var guards, ngs []*Term
 		var sts []*State
 		var vals []Val
+		allReturn := true
 		for i, a := range fnVal.Alts {
 			sk := st.clone()
 			gk := c.define(fmt.Sprintf("g.alt%d", i), tAnd(g, a.G))
@@ -323,12 +371,16 @@ func (fr *Frame) callWith(cc *ssa.CallCommon, site ssa.Instruction, st *State, g
 			vals = append(vals, v)
 			if ng != nil {
 				ngs = append(ngs, ng)
+				allReturn = false
 			} else {
 				ngs = append(ngs, gk)
 			}
 		}
 		merged := c.joinStates(guards, sts)
 		st.heap = merged.heap
+		if allReturn {
+			return c.mergeAltVals(guards, vals, resType), nil // see the interface case above
+		}
 		return c.mergeAltVals(guards, vals, resType), c.define("g.altret", tOr(ngs...))
 	}
 	// call through a function value: field contracts
@@ -751,8 +803,17 @@ func (c *Ctx) modTargets(e *Env, x Expr) (names []string, points [][]*Term) {
 		if n.Fn == "elems" && len(n.Args) == 1 {
 			// elems(s): the backing array of slice s
 			s := e.eval(n.Args[0])
+			if _, isIface := s.Type.Underlying().(*types.Interface); isIface {
+				// a slice passed as interface{} (sort.Slice): usable when its dynamic type is known on this path
+				if s.Val != nil && s.Val.Dyn != nil && s.Val.DynV != nil {
+					if du, ok := s.Val.Dyn.Underlying().(*types.Slice); ok {
+						return []string{c.elemNameT(du.Elem())}, [][]*Term{{mk(SInt, "(s.arr "+c.valTerm(*s.Val.DynV, "x").S+")")}}
+					}
+				}
+				panic(specError{"elems(): dynamic type of the interface value is not a statically known slice"})
+			}
 			u := s.Type.Underlying().(*types.Slice)
-			return []string{c.elemName(c.sortOf(u.Elem()))}, [][]*Term{{mk(SInt, "(s.arr "+s.T.S+")")}}
+			return []string{c.elemNameT(u.Elem())}, [][]*Term{{mk(SInt, "(s.arr "+s.T.S+")")}}
 		}
 		if n.Fn == "mapof" && len(n.Args) == 1 {
 			m := e.eval(n.Args[0])
@@ -881,7 +942,7 @@ func (fr *Frame) appendBuiltin(cc *ssa.CallCommon, args []Val, st *State, g *Ter
 	c := fr.c
 	st0 := cc.Args[0].Type().Underlying().(*types.Slice)
 	es := c.sortOf(st0.Elem())
-	en := c.elemName(es)
+	en := c.elemNameT(st0.Elem())
 	s := args[0].T
 	// source: slice (variadic) or string
 	var addLen *Term
@@ -920,7 +981,7 @@ func (fr *Frame) copyBuiltin(cc *ssa.CallCommon, args []Val, st *State, g *Term)
 	c := fr.c
 	dt := cc.Args[0].Type().Underlying().(*types.Slice)
 	es := c.sortOf(dt.Elem())
-	en := c.elemName(es)
+	en := c.elemNameT(dt.Elem())
 	d := args[0].T
 	var srcLen *Term
 	var srcElem func(j string) string
